@@ -303,33 +303,10 @@ theorem stability_needs_blank_indent_unit :
 
 /-! #### C12a at text level — the layout law read off the output text -/
 
-/-- **C12a on the output text.**  Pretty class (normal or slim elements, indent unit of spaces/tabs), any token
-    sequence `toks` that the plain parser builds into a strict single-root document `u` without the reserved name
-    (doctype `dt`).  The output text `out` lexes (`lexStrict out = some toks2`), is the rendering of `toks2`
-    (`renderToksY`, start tags in the class's style), the tags of `toks2` are balanced (`tagStack [] toks2 = []`, every
-    end tag closes the innermost open element), and for **every position**: split `toks2 = pre ++ t :: post`, so that
-    `out = before ++ (text of t) ++ …` with `before = renderToksY … pre` the text in front of the tag, and let
-    `open_ = tagStack [] pre` be the names of the elements open at that point, recomputed from the tokens `pre` alone
-    (a start tag pushes, an end tag pops).  Then
-
-    * `t` a start tag or a self-closing tag, no pre/code element open: `before` ends with a line break followed by
-      exactly `open_.length` copies of the indent unit — the tag is the first thing on its own line, indented by
-      depth × indent;
-    * `t` the end tag `</n>`: `n` is the innermost open element; and if `n` is not pre/code and no pre/code element
-      encloses it, `before` ends with a line break followed by exactly `(depth of that element)` copies of the unit —
-      the end tag is on its own line at the indentation of its start tag.  No exception is needed for script/style:
-      `getEndTag` omits the indent only when the content already ends with it.
-
-    (`layout_reads_as_line`: since the unit has no line break, "ends with LF + d units" = "the last line of `before` is
-    exactly d units".)  `pretty_text_layout` is the instance for the tokens of a strict document,
-    `pretty_text_layout_second_pass` the one for the re-tokenised output of pass 1. -/
-theorem pretty_text_layout_tokens (cfg : Cfg) (hm : cfg.mini = false) (hi : IndentWS cfg) (dt : Option Str)
-    (hdt : DtOK dt) (n : Str) (st : AStore) (sc : Bool) (kids : List FNode)
-    (hs : (FNode.elem n st sc kids).Strict) (hnw : (FNode.elem n st sc kids).NoWrapper)
-    (toks : List Tok) (hnws : NoWrapperStart toks)
-    (hp : Plain.feed toks = .ok ⟨[], some (FNode.elem n st sc kids).toNode, dt, 0, 0⟩) :
-    ∃ out toks2, format cfg toks = .ok out ∧ lexStrict out = some toks2 ∧ tagStack [] toks2 = [] ∧
-      ∀ pre t post, toks2 = pre ++ t :: post →
+/-- `Scan` read position by position (shared by the single- and multi-root layout statements) -/
+theorem scan_positions (cfg : Cfg) (out : Str) (toks2 : List Token)
+    (h3 : out = renderToksY (styleOf cfg.kind) toks2) (h4 : Scan (styleOf cfg.kind) cfg.indent [] [] toks2) :
+    ∀ pre t post, toks2 = pre ++ t :: post →
         out = renderToksY (styleOf cfg.kind) pre ++ renderTokY (styleOf cfg.kind) t
                 ++ renderToksY (styleOf cfg.kind) post
         ∧ (∀ m a, t = .start m a ∨ t = .startend m a → noPre (tagStack [] pre) = true →
@@ -337,8 +314,6 @@ theorem pretty_text_layout_tokens (cfg : Cfg) (hm : cfg.mini = false) (hi : Inde
         ∧ (∀ m, t = .end_ m → (tagStack [] pre).head? = some m ∧
             (isPre m = false → noPre (tagStack [] pre).tail = true →
               ∃ x, renderToksY (styleOf cfg.kind) pre = x ++ '\n' :: rep ((tagStack [] pre).length - 1) cfg.indent)) := by
-  obtain ⟨out, toks2, h1, h2, h3, h4⟩ := pretty_layout_core cfg hm hi dt hdt n st sc kids hs hnw toks hnws hp
-  refine ⟨out, toks2, h1, h2, scan_balanced _ _ _ _ _ h4, ?_⟩
   intro pre t post hsplit
   have hat := scan_split (styleOf cfg.kind) cfg.indent pre [] [] t post (hsplit ▸ h4)
   simp only [List.nil_append] at hat
@@ -358,6 +333,49 @@ theorem pretty_text_layout_tokens (cfg : Cfg) (hm : cfg.mini = false) (hi : Inde
     obtain ⟨x, hx⟩ := hat.2 h1 h2
     exact ⟨x, hx.symm⟩
 
+/-- **C12a on the output text.**  Pretty class (normal or slim elements, indent unit of spaces/tabs), any token
+    sequence `toks` whose plain-parser tree — `ps.root`, **elements still open at the end of the input included**: the
+    final state `ps` may have a non-empty stack, `getHTML` serialises the tree with them closed — is a strict single-root
+    document `u` without the reserved name (doctype `ps.doctype`).  (Implicit closes inside `toks` are allowed as long as
+    the resulting tree is strict; stray end tags leave no trace in the tree.)  The output text `out` lexes
+    (`lexStrict out = some toks2`), is the rendering of `toks2`
+    (`renderToksY`, start tags in the class's style), the tags of `toks2` are balanced (`tagStack [] toks2 = []`, every
+    end tag closes the innermost open element), and for **every position**: split `toks2 = pre ++ t :: post`, so that
+    `out = before ++ (text of t) ++ …` with `before = renderToksY … pre` the text in front of the tag, and let
+    `open_ = tagStack [] pre` be the names of the elements open at that point, recomputed from the tokens `pre` alone
+    (a start tag pushes, an end tag pops).  Then
+
+    * `t` a start tag or a self-closing tag, no pre/code element open: `before` ends with a line break followed by
+      exactly `open_.length` copies of the indent unit — the tag is preceded on its line by depth × indent and nothing
+      else (text may FOLLOW a tag on the same line: "on its own line" is proved as "preceded by LF + depth × unit");
+    * `t` the end tag `</n>`: `n` is the innermost open element; and if `n` is not pre/code and no pre/code element
+      encloses it, `before` ends with a line break followed by exactly `(depth of that element)` copies of the unit —
+      the end tag is preceded on its line by the indentation of its start tag.  No exception is needed for script/style:
+      `getEndTag` omits the indent only when the content already ends with it.
+
+    (`layout_reads_as_line`: since the unit has no line break, "ends with LF + d units" = "the last line of `before` is
+    exactly d units".)  `pretty_text_layout` is the instance for the tokens of a strict document,
+    `pretty_text_layout_second_pass` the one for the re-tokenised output of pass 1, `pretty_text_layout_multi` the
+    multi-root counterpart. -/
+theorem pretty_text_layout_tokens (cfg : Cfg) (hm : cfg.mini = false) (hi : IndentWS cfg)
+    (n : Str) (st : AStore) (sc : Bool) (kids : List FNode)
+    (hs : (FNode.elem n st sc kids).Strict) (hnw : (FNode.elem n st sc kids).NoWrapper)
+    (toks : List Tok) (hnws : NoWrapperStart toks) (ps : St)
+    (hp : Plain.feed toks = .ok ps) (hroot : ps.root = some (FNode.elem n st sc kids).toNode)
+    (hdt : DtOK ps.doctype) :
+    ∃ out toks2, format cfg toks = .ok out ∧ lexStrict out = some toks2 ∧ tagStack [] toks2 = [] ∧
+      ∀ pre t post, toks2 = pre ++ t :: post →
+        out = renderToksY (styleOf cfg.kind) pre ++ renderTokY (styleOf cfg.kind) t
+                ++ renderToksY (styleOf cfg.kind) post
+        ∧ (∀ m a, t = .start m a ∨ t = .startend m a → noPre (tagStack [] pre) = true →
+            ∃ x, renderToksY (styleOf cfg.kind) pre = x ++ '\n' :: rep (tagStack [] pre).length cfg.indent)
+        ∧ (∀ m, t = .end_ m → (tagStack [] pre).head? = some m ∧
+            (isPre m = false → noPre (tagStack [] pre).tail = true →
+              ∃ x, renderToksY (styleOf cfg.kind) pre = x ++ '\n' :: rep ((tagStack [] pre).length - 1) cfg.indent)) := by
+  obtain ⟨out, toks2, h1, h2, h3, h4⟩ :=
+    pretty_layout_core_open cfg hm hi ps.doctype hdt n st sc kids hs hnw toks hnws ps hp hroot rfl
+  exact ⟨out, toks2, h1, h2, scan_balanced _ _ _ _ _ h4, scan_positions cfg out toks2 h3 h4⟩
+
 /-- `pretty_text_layout_tokens` for the token sequence of a strict single-root document (what `lexStrict` returns on
     any serialisation of it, C01): the output of the first pretty pass obeys the layout law. -/
 theorem pretty_text_layout (cfg : Cfg) (hm : cfg.mini = false) (hi : IndentWS cfg) (dt : Option Str)
@@ -373,8 +391,8 @@ theorem pretty_text_layout (cfg : Cfg) (hm : cfg.mini = false) (hi : IndentWS cf
         ∧ (∀ m, t = .end_ m → (tagStack [] pre).head? = some m ∧
             (isPre m = false → noPre (tagStack [] pre).tail = true →
               ∃ x, renderToksY (styleOf cfg.kind) pre = x ++ '\n' :: rep ((tagStack [] pre).length - 1) cfg.indent)) :=
-  pretty_text_layout_tokens cfg hm hi dt hdt n st sc kids hs hnw _ (noWrapperStart_strictToks dt _ hs hnw)
-    (plain_feed_strictToks dt hdt n st sc kids hs)
+  pretty_text_layout_tokens cfg hm hi n st sc kids hs hnw _ (noWrapperStart_strictToks dt _ hs hnw) _
+    (plain_feed_strictToks dt hdt n st sc kids hs) rfl hdt
 
 /-- … and so does the output of the second pass (the formatter fed the tokens the lexer reads from pass 1's output) —
     hence, with `pretty_text_stable`, of every later pass. -/
@@ -393,7 +411,7 @@ theorem pretty_text_layout_second_pass (cfg : Cfg) (hm : cfg.mini = false) (hi :
               ∃ x, renderToksY (styleOf cfg.kind) pre = x ++ '\n' :: rep ((tagStack [] pre).length - 1) cfg.indent)) := by
   obtain ⟨f1, l1, w1, p1, s1, n1⟩ := pass_step cfg hi dt hdt n st sc kids hs hnw _
     (noWrapperStart_strictToks dt _ hs hnw) (plain_feed_strictToks dt hdt n st sc kids hs)
-  obtain ⟨out2, toks3, g1, g2, g3, g4⟩ := pretty_text_layout_tokens cfg hm hi dt hdt n st sc _ s1 n1 _ w1 p1
+  obtain ⟨out2, toks3, g1, g2, g3, g4⟩ := pretty_text_layout_tokens cfg hm hi n st sc _ s1 n1 _ w1 _ p1 rfl hdt
   exact ⟨_, _, out2, toks3, f1, l1, g1, g2, g3, g4⟩
 
 /-- **The hypothesis `NoWrapper` is needed for the layout law** (the property excludes the reserved name): in the strict
@@ -495,6 +513,30 @@ example : ∃ out toks2, format (mkCfg .pretty .dflt false) (strictToks none sta
     _ _ _ _ stableTree_strict stableTree_noWrapper
   ⟨out, toks2, h1, h2, h3⟩
 
+/-- a token sequence with an implicit close (`<li>` closed by `</ul>`) that **ends with two elements still open** -/
+def openTailToks : List Tok :=
+  [.start (str "div") [], .start (str "ul") [], .start (str "li") [], .data (str "a"), .end_ (str "ul"),
+   .start (str "p") [], .data (str "b")]
+
+def openTailTree : FNode :=
+  .elem (str "div") {} false
+    [.elem (str "ul") {} false [.elem (str "li") {} false [.tok (.data (str "a"))]],
+     .elem (str "p") {} false [.tok (.data (str "b"))]]
+
+/-- `pretty_text_layout_tokens` applies to it: the final stack is not empty (`p`, `div` open) -/
+example : ∃ ps, Plain.feed openTailToks = .ok ps ∧ ps.stack.length = 2 ∧ ps.root = some openTailTree.toNode := by
+  refine ⟨_, rfl, ?_, ?_⟩
+  · decide
+  · rfl
+example : ∃ out toks2, format (mkCfg .pretty .dflt false) openTailToks = .ok out ∧ lexStrict out = some toks2 ∧
+    tagStack [] toks2 = [] :=
+  let ⟨out, toks2, h1, h2, h3, _⟩ := pretty_text_layout_tokens (mkCfg .pretty .dflt false) rfl (by decide)
+    _ _ _ _ (by simp only [FNode.Strict, StrictL]; decide)
+    (by simp only [FNode.NoWrapper, NoWrapperL]; decide) openTailToks (by decide) _ rfl
+    (show _ = some openTailTree.toNode from rfl) trivial
+  ⟨out, toks2, h1, h2, h3⟩
+example : okIs (format (mkCfg .pretty .dflt false) openTailToks)
+    "\n<div >\n  <ul >\n    <li >a\n    </li>\n  </ul>\n  <p >b\n  </p>\n</div>" = true := by decide
 /-- the texts in question: pass 1, and pass 2 = pass 3 (what the model's formatter and lexer compute) -/
 example : okIs (format (mkCfg .pretty .dflt false) (strictToks (some (str "DOCTYPE html")) stableTree))
     ("<!DOCTYPE html>\n\n<div >a b\n  <p >x\n    <br />\n  </p>\n  <pre ><span >  y  </span></pre>&amp;\n" ++
